@@ -33,7 +33,7 @@ HEADER = ('From Coq Require Import List Bool Arith ZArith QArith.\n'
           'Definition blocks_eqb (a : option (list block)) (b : option (list block)) : bool := option_eqb (list_eqb block_eqb) a b.\n'
           'Definition dblocks_eqb (a b : list block) : bool := list_eqb block_eqb a b.')
 
-DOMAINS = ['none', 'none', 'box', 'halfspace', 'ball', 'expcone', 'lifted', 'equality', 'eq_box', 'mixed', 'intbox']
+DOMAINS = ['none', 'none', 'box', 'halfspace', 'ball', 'expcone', 'lifted', 'equality', 'eq_box', 'mixed', 'intbox', 'two_balls']
 
 
 class adversarial_globals:
@@ -78,6 +78,11 @@ def make_domain(rng, n, kind):
         A = np.vstack([np.eye(n), -np.eye(n)]).astype(int)
         b = np.array([1.5] * n + [0.5] * n)
         K = [('+', 2 * n)]
+    elif kind == 'two_balls':
+        # two second-order cone blocks NEXT TO EACH OTHER: |x| <= 2 and |x - e_1| <= 2
+        A = np.vstack([np.zeros((1, n)), np.eye(n), np.zeros((1, n)), np.eye(n)])
+        b = np.array([2.0] + [0.0] * n + [2.0] + [-1.0] + [0.0] * (n - 1))
+        K = [('S', n + 1), ('S', n + 1)]
     elif kind == 'negbox':
         # [-1, -1/2]^n : a box inside the negative orthant
         A = np.vstack([np.eye(n), -np.eye(n)])
@@ -150,6 +155,9 @@ def gen_alpha(rng, m, n, nonneg=False):
             rows.append(r)
     if nonneg and [Fraction(0)] * n not in rows:
         rows[rng.randrange(m)] = [Fraction(0)] * n
+    if not nonneg and rng.random() < 0.06:
+        # the whole matrix at scale 2^-30: differences of exponents far below 1e-8 are differences
+        rows = [[v * Fraction(1, 2 ** 30) for v in r] for r in rows]
     if nonneg == 'almost':
         # nonnegative with a zero row, except for ONE negative entry: the orthogonality-based cover reduction must not fire
         cand = [(i, j) for i in range(m) for j in range(n) if rows[i][j] > 0]
